@@ -23,6 +23,7 @@ FINDINGS_FILE = os.environ.get("VERIF_FINDINGS") or os.path.join(ROOT, "known_fi
 MAX_SAMPLES = 6
 MAX_REPLAYS_PER_SIG = 1
 MAX_DISTINCT_SIGS = 40
+SET_CAP = 4_000_000  # digests kept per statistic set (states, distinct, outcomes); beyond it the count is a lower bound
 
 
 class HarnessError(Exception):
@@ -85,7 +86,11 @@ class Acc:
         for s in other.samples:
             self.sample(s)
         for name, st in other.sets.items():
-            self.sets.setdefault(name, set()).update(st)
+            mine = self.sets.setdefault(name, set())
+            if len(mine) < SET_CAP:
+                mine.update(st)
+            elif st:
+                self.counts["set_cap_reached:" + name] = 1  # statistic only: reported as a lower bound, memory stays bounded
         for v in other.violations:
             n = sum(1 for w in self.violations if w["key"] == v["key"])
             if n < MAX_REPLAYS_PER_SIG and (n or len({w["key"] for w in self.violations}) < MAX_DISTINCT_SIGS):
@@ -242,6 +247,7 @@ def main(argv=None):
         os.environ["PYTHONHASHSEED"] = "0"
         os.execv(sys.executable, [sys.executable, "-m", "vf.runner"] + (argv or sys.argv[1:]))
     os.chdir(ROOT)
+    os.environ["VERIF_TIER_EFFECTIVE"] = args.tier  # visible to worker subprocesses (e.g. the ASan decoder workers)
     sys.setrecursionlimit(10000)
     from vf import build
 
